@@ -62,6 +62,8 @@ func checkC12(c *Ctx) {
 	c.checkAPIKeyRule()
 	c.checkCodeAuth()
 	c.checkBasicAuth()
+	c.checkCacheKeyAgreement()
+	c.checkTokenDecodeOffsets()
 }
 
 func (c *Ctx) checkTokenAuth() {
